@@ -58,6 +58,9 @@ def file_bytes(entry) -> tuple[str, bytes]:
     if isinstance(entry, str):
         p = FIXTURES / entry
         return p.name, p.read_bytes()
+    if isinstance(entry, dict) and "copy" in entry:
+        # a fixture stored under another name (media file names are unique across streams)
+        return entry["as"], (FIXTURES / entry["copy"]).read_bytes()
     if isinstance(entry, dict) and "forge" in entry:
         from . import forge
         return forge.build(entry["forge"])
@@ -163,5 +166,8 @@ def instantiate(name: str, template: dict, secrets_seed: int = 0,
         (world.instance / "media" / "blobs").symlink_to(tdir / "instance" / "media" / "blobs", target_is_directory=True)
     else:
         shutil.copytree(tdir, world.root)
+    # every run starts like a fresh process: module- and class-level state left behind by earlier runs of this
+    # worker must not leak into this one (it would make the outcome depend on the worker's history)
+    boot.restore_globals()
     world.start()
     return world, json.loads(json.dumps(_MEMO[key]))
